@@ -590,6 +590,9 @@ def run(prog, rep):
     # ---------------------------------------------------------------- R13.6 .. R13.8
     encoded_reader.check(prog, rep)
 
+    # ---------------------------------------------------------------- R13.9
+    check_stream_reposition(prog, rep)
+
 
 def check_detect(rep, det, site, enc, offset, res, what, enum):
     want = enum['items'][enc]
@@ -769,3 +772,48 @@ def check_starts_with_bom(prog, rep, bt):
             rep.ok('R13.2', site, sample={'traits': m.group(1), 'cells': len(cells)} if k <= 5 else None)
     if k == 0:
         raise AnalysisBroken('R13.2: no instantiation of StartsWithBom')
+
+
+def check_stream_reposition(prog, rep):
+    """DetectEncoding(std::istream&, ...) probes the first bytes and puts the stream back: the text need not start at offset 0 of the stream
+    (an application header may precede it), so every seekg must be relative to the position the stream had on entry - its argument derives
+    from the tellg() taken before the probe, or it is a relative seek (ios_base::cur)."""
+    from bsv.expr import named_inits
+    rep.rule('R13.9', 'DetectEncoding(istream&): every repositioning of the stream after the probe read is relative to the entry position '
+                      '(derives from the tellg() result taken before the read, or seeks with ios_base::cur)', floor=2)
+    fs = [f for f in prog.funcs.values() if f.q == NS + 'DetectEncoding' and f.body is not None and f.params and 'basic_istream' in f.type(f.params[0])]
+    if not fs:
+        raise AnalysisBroken('anchor vanished: DetectEncoding(std::istream&, bool)')
+    f = sorted(fs, key=lambda g: g.id)[0]
+    rep.touch(f)
+    inits = named_inits(f)
+    entry = set()
+    first_read = min([n['l'] for n in f.walk() if n['k'] == 'CXXMemberCallExpr' and (f.callee(n) or {}).get('n') in ('read', 'get', 'readsome')] or [10 ** 9])
+    for d, ini in inits.items():
+        if any(x['k'] == 'CXXMemberCallExpr' and (f.callee(x) or {}).get('n') == 'tellg' and x['l'] <= first_read for x in f.walk(ini)):
+            entry.add(d)
+    changed = True
+    while changed:
+        changed = False
+        for d, ini in inits.items():
+            if d not in entry and any(x['k'] == 'DeclRefExpr' and x.get('d') in entry for x in f.walk(ini)):
+                entry.add(d)
+                changed = True
+    if not entry:
+        rep.finding('R13.9', 'entry position', f.loc(), 'DetectEncoding(istream&) does not record the stream position (tellg) before the probe read: '
+                    'it cannot put a stream that does not start at offset 0 back', func=f.id)
+        return
+    seeks = [n for n in f.walk() if n['k'] == 'CXXMemberCallExpr' and (f.callee(n) or {}).get('n') == 'seekg']
+    if not seeks:
+        raise AnalysisBroken('R13.9: DetectEncoding(istream&) has no seekg')
+    for i, sk in enumerate(seeks):
+        args = [a for a in sk['c'][1:] if a['k'] != 'CXXDefaultArgExpr']
+        rel = any(x['k'] == 'DeclRefExpr' and x.get('d') in entry for a in args[:1] for x in f.walk(a))
+        cur = len(args) == 2 and any(x.get('n') == 'cur' or x.get('m') == 'cur' for x in f.walk(args[1]))
+        site = 'seekg #%d' % (i + 1)
+        if rel or cur:
+            rep.ok('R13.9', site + '|' + f.loc(sk), sample={'seekg_at': f.loc(sk), 'relative_to': 'entry tellg()' if rel else 'current position'})
+        else:
+            rep.finding('R13.9', site, f.loc(sk), 'DetectEncoding(istream&) repositions the stream with a seekg that does not depend on the position the '
+                        'stream had on entry: text that starts behind a preamble is re-read from the wrong place (absolute offset instead of entry '
+                        'position + offset)', func=f.id)
